@@ -5,6 +5,15 @@
 //                                                               1 = generateXConstraints(useNeighbourLists=false),
 //                                                               2 = generateXConstraints(useNeighbourLists=true)
 //                                                               10,11,12 = the same with every Variable::id == 0
+//                                                               20,21,22 = the same with caller-chosen ids: n ids follow
+//                                                                          the rectangles (duplicates allowed: ids are
+//                                                                          "useful in log files" only, variable.h:51)
+//   Q <scale> <xb> <yb> <k> { <ovl> <third> <nf> f.. <n> x X y Y ... }*k    k removeoverlaps calls in ONE process without
+//                                                               resetting the borders in between (the caller's borders are set
+//                                                               once); ovl 0 = removeoverlaps(rs,fixed,third), 1 = (rs,fixed),
+//                                                               2 = (rs).  After EACH call: exc, Rectangle::xBorder, yBorder,
+//                                                               width()/height() of a witness rectangle that is in no call, and
+//                                                               per rectangle width() height() before / after + the raw box.
 //   S <n> <m> (desired weight)*n (l r gap)*m     the static vpsc::Solver on hex-float data; prints P finalPositions
 //   M <scale> <xb> <yb> u(4) v(4) p             the small Rectangle methods (getters, overlapX/Y, moveCentreX/Y)
 //   R <third> <scale> <xb> <yb> <pk> <pdir> <nf> f.. <n> x X y Y ...   removeoverlaps(rs, fixed, third)
@@ -33,6 +42,10 @@
 #include "libvpsc/exceptions.h"
 #include "libvpsc/assertions.h"
 #undef private
+#ifdef NDEBUG
+// flavour `ndebug` (COLA_ASSERT compiled out): assertions.h does not declare CriticalFailure there; never thrown
+namespace vpsc { class CriticalFailure { public: std::string file, expr; int line; }; }
+#endif
 using namespace vpsc;
 
 // Allocator priming.  glibc's per-thread cache (tcache) for a chunk size is a LIFO list of at most 7 chunks: after
@@ -85,6 +98,7 @@ int main()
             int mode, pk, pdir, n; long scale, xb, yb;
             in >> mode >> scale >> xb >> yb >> pk >> pdir >> n;
             // modes 10,11,12: as 0,1,2 but every Variable gets id 0 (ids are documentation only, variable.h:51)
+            bool givenids = mode >= 20; if (givenids) mode -= 20;
             bool dupids = mode >= 10; if (dupids) mode -= 10;
             Rectangles rs; Variables vs;
             for (int i = 0; i < n; i++) {
@@ -92,6 +106,7 @@ int main()
                 rs.push_back(new Rectangle((double)a / scale, (double)b / scale, (double)c / scale, (double)d / scale));
                 vs.push_back(new Variable(dupids ? 0 : i, 0, 1));
             }
+            if (givenids) for (int i = 0; i < n; i++) { int id = i; in >> id; vs[i]->id = id; }
             Rectangle::setXBorder((double)xb / scale);
             Rectangle::setYBorder((double)yb / scale);
             Constraints cs;
@@ -145,6 +160,45 @@ int main()
             printf("\n");
             Rectangle::setXBorder(0); Rectangle::setYBorder(0);
             for (int i = 0; i < n; i++) delete rs[i];
+        } else if (tag == 'Q') {
+            long scale, xb, yb; int k;
+            in >> scale >> xb >> yb >> k;
+            Rectangle::setXBorder((double)xb / scale);
+            Rectangle::setYBorder((double)yb / scale);
+            Rectangle witness(0, 3, 0, 5);
+            printf("Q %d", k);
+            for (int c = 0; c < k; c++) {
+                int ovl, third, nf, n;
+                in >> ovl >> third >> nf;
+                std::set<unsigned> fixed;
+                for (int i = 0; i < nf; i++) { unsigned f; in >> f; fixed.insert(f); }
+                in >> n;
+                Rectangles rs;
+                std::vector<double> w0, h0;
+                for (int i = 0; i < n; i++) {
+                    long a, b, cc, d; in >> a >> b >> cc >> d;
+                    rs.push_back(new Rectangle((double)a / scale, (double)b / scale, (double)cc / scale, (double)d / scale));
+                    w0.push_back(rs[i]->width()); h0.push_back(rs[i]->height());
+                }
+                int exc = 0; std::string what;
+                try {
+                    if (ovl == 0) removeoverlaps(rs, fixed, third != 0);
+                    else if (ovl == 1) removeoverlaps(rs, fixed);
+                    else removeoverlaps(rs);
+                }
+                catch (UnsatisfiedConstraint &u) { exc = 1; }
+                catch (CriticalFailure &f) { exc = 3; std::ostringstream o; o << f.file << ":" << f.line << ":" << f.expr; what = o.str(); }
+                catch (...) { exc = 2; }
+                for (size_t q = 0; q < what.size(); q++) if (what[q] == ' ' || what[q] == '|') what[q] = '_';
+                printf(" | %d %s %a %a %a %a %d", exc, exc == 3 ? what.c_str() : "-", Rectangle::xBorder, Rectangle::yBorder,
+                       witness.width(), witness.height(), n);
+                for (int i = 0; i < n; i++)
+                    printf(" %a %a %a %a %a %a %a %a", w0[i], h0[i], rs[i]->width(), rs[i]->height(),
+                           rs[i]->minX, rs[i]->maxX, rs[i]->minY, rs[i]->maxY);
+                for (int i = 0; i < n; i++) delete rs[i];
+            }
+            printf("\n");
+            Rectangle::setXBorder(0); Rectangle::setYBorder(0);
         } else if (tag == 'S') {
             // S <n> <m>  desired weight ...  l r gap ...   (hex floats): vpsc::Solver(vs,cs).solve(), prints finalPosition
             int n, m; in >> n >> m;
